@@ -1,1 +1,99 @@
-From Servitor Require Import Base.
+(* C12 - The number shown next to a link opens exactly that link.
+   The renderers thread the list of link targets; ls_events is a ghost list of label events
+   (number printed next to a link, its target) recorded where style.Link / LinkBlock is called.
+   [numbered 0 links] = [(1,t1); ...; (N,tN)].  [select links k] is what SelectLink does with
+   the body links (numbers below 1 open nothing - the repaired lower bound).
+   Only property theorems here. *)
+
+From Servitor Require Import Base Unicode Ansi Style Html Gemtext Plaintext.
+From Servitor.Facts Require Import LinkFacts.
+Local Open Scope Z_scope.
+
+(* rendering ANY tree only appends targets, and every appended target is labelled with exactly its 1-based position: no repeats, no gaps, document order - anchors inside anchors, images inside anchors, media without src, anchors without href included *)
+Theorem render_node_labels :
+  forall (col : colors) (n : node) (parent_li pre_ws : bool) (w : Z) (st : lstate),
+  exists new : list text,
+  ls_links (snd (render_node col n parent_li pre_ws w st)) = ls_links st ++ new /\
+  ls_events (snd (render_node col n parent_li pre_ws w st)) =
+  ls_events st ++ numbered (length (ls_links st)) new.
+Proof. exact render_node_labels_fact. Qed.
+Print Assumptions render_node_labels.
+
+(* the labels shown are (1,t1) ... (N,tN) where [t1..tN] is the returned link list *)
+Theorem render_labels :
+  forall (col : colors) (ns : list node) (w : Z),
+  ls_events (snd (render_full col ns w)) = numbered 0 (ls_links (snd (render_full col ns w))).
+Proof. exact render_labels_fact. Qed.
+Print Assumptions render_labels.
+
+(* typing number k opens precisely the target labelled k *)
+Theorem label_opens_target :
+  forall (col : colors) (ns : list node) (w : Z) (k : nat) (t : text),
+  In (k, t) (ls_events (snd (render_full col ns w))) ->
+  select (ls_links (snd (render_full col ns w))) (Z.of_nat k) = Some t.
+Proof. exact label_opens_target_fact. Qed.
+Print Assumptions label_opens_target.
+
+(* every number in 1..N is shown and opens its target *)
+Theorem inside_opens_labelled :
+  forall (col : colors) (ns : list node) (w : Z) (k : nat),
+  (1 <= k <= length (ls_links (snd (render_full col ns w))))%nat ->
+  exists t : text,
+  select (ls_links (snd (render_full col ns w))) (Z.of_nat k) = Some t /\
+  In (k, t) (ls_events (snd (render_full col ns w))).
+Proof. exact inside_opens_labelled_fact. Qed.
+Print Assumptions inside_opens_labelled.
+
+(* numbers outside 1..N open nothing *)
+Theorem outside_opens_nothing :
+  forall (links : list text) (k : Z),
+  k < 1 \/ Z.of_nat (length links) < k -> select links k = None.
+Proof. exact outside_opens_nothing_fact. Qed.
+Print Assumptions outside_opens_nothing.
+
+(* numbering is the same at every width *)
+Theorem labels_width_independent :
+  forall (col : colors) (ns : list node) (w1 w2 : Z),
+  snd (render_full col ns w1) = snd (render_full col ns w2).
+Proof. exact labels_width_independent_fact. Qed.
+Print Assumptions labels_width_independent.
+
+(* gemtext: the instrumented renderer is the renderer *)
+Theorem gem_render_ev_erase :
+  forall (col : colors) (t : text) (w : Z),
+  fst (gem_render_ev col t w) = gem_render_with_links col t w.
+Proof. exact gem_render_ev_erase_fact. Qed.
+Print Assumptions gem_render_ev_erase.
+
+Theorem gem_render_labels :
+  forall (col : colors) (t : text) (w : Z),
+  snd (gem_render_ev col t w) = numbered 0 (snd (gem_render_with_links col t w)).
+Proof. exact gem_render_labels_fact. Qed.
+Print Assumptions gem_render_labels.
+
+Theorem gem_label_opens_target :
+  forall (col : colors) (t : text) (w : Z) (k : nat) (u : text),
+  In (k, u) (snd (gem_render_ev col t w)) ->
+  select (snd (gem_render_with_links col t w)) (Z.of_nat k) = Some u.
+Proof. exact gem_label_opens_target_fact. Qed.
+Print Assumptions gem_label_opens_target.
+
+(* plain text likewise *)
+Theorem plain_render_ev_erase :
+  forall (col : colors) (t : text) (w : Z),
+  fst (plain_render_ev col t w) = plain_render_with_links col t w.
+Proof. exact plain_render_ev_erase_fact. Qed.
+Print Assumptions plain_render_ev_erase.
+
+Theorem plain_render_labels :
+  forall (col : colors) (t : text) (w : Z),
+  snd (plain_render_ev col t w) = numbered 0 (snd (plain_render_with_links col t w)).
+Proof. exact plain_render_labels_fact. Qed.
+Print Assumptions plain_render_labels.
+
+Theorem plain_label_opens_target :
+  forall (col : colors) (t : text) (w : Z) (k : nat) (u : text),
+  In (k, u) (snd (plain_render_ev col t w)) ->
+  select (snd (plain_render_with_links col t w)) (Z.of_nat k) = Some u.
+Proof. exact plain_label_opens_target_fact. Qed.
+Print Assumptions plain_label_opens_target.
